@@ -773,9 +773,72 @@ Proof.
 Qed.
 
 (* Type() with the two reflect panics switched off is total *)
-Lemma go_type_total cfg t : c_key_panic cfg = false -> c_dup_panic cfg = false ->
-  go_type_result cfg t = Some (go_type t).
-Proof. intros H1 H2. unfold go_type_result, type_panics. now rewrite H1, H2. Qed.
+(* Type() with the two reflect panics repaired is total *)
+Lemma go_type_total cfg t : c_key_panic cfg = false -> c_dup_panic cfg = false -> go_type_result cfg t <> None.
+Proof.
+  intros H1 H2. induction t as [s|t IHt|k v IHk IHv|ts IH|n fs IH] using ty_ind2; cbn [go_type_result].
+  - discriminate.
+  - destruct (go_type_result cfg t); [discriminate|congruence].
+  - destruct (go_type_result cfg k) as [ks|]; [|congruence]. rewrite H1.
+    destruct (shape_comparable ks); [|discriminate].
+    destruct (go_type_result cfg v); [discriminate|congruence].
+  - assert (E : res_list (go_type_result cfg) ts <> None).
+    { induction IH as [|t ts Ht HF IHl]; cbn [res_list]; [discriminate|].
+      destruct (go_type_result cfg t); [|congruence]. destruct (res_list (go_type_result cfg) ts); [discriminate|congruence]. }
+    destruct (res_list (go_type_result cfg) ts); [discriminate|congruence].
+  - assert (E : res_fields (go_type_result cfg) fs <> None).
+    { induction IH as [|f fs Hf HF IHl]; cbn [res_fields]; [discriminate|].
+      destruct (go_type_result cfg (snd f)); [|congruence]. destruct (res_fields (go_type_result cfg) fs); [discriminate|congruence]. }
+    destruct (res_fields (go_type_result cfg) fs); [|congruence]. rewrite H2.
+    destruct (has_dup _); discriminate.
+Qed.
+
+Lemma tuple_fields_forallb {A} (p : A -> bool) i (l : list A) :
+  forallb (fun f => p (snd f)) (tuple_fields i l) = forallb p l.
+Proof. revert i; induction l as [|x l IH]; intro i; cbn; [reflexivity|now rewrite IH]. Qed.
+
+Lemma forallb_map' {A B} (f : A -> B) (p : B -> bool) l : forallb p (map f l) = forallb (fun x => p (f x)) l.
+Proof. induction l as [|x l IH]; cbn; [reflexivity|now rewrite IH]. Qed.
+
+Lemma go_type_comparable t : shape_comparable (go_type t) = comparable t.
+Proof.
+  induction t as [s|t IHt|k v IHk IHv|ts IH|n fs IH] using ty_ind2.
+  - destruct s; vm_compute; reflexivity.
+  - reflexivity.
+  - reflexivity.
+  - cbn [go_type shape_comparable comparable]. rewrite tuple_fields_forallb, forallb_map'.
+    induction IH as [|t ts Ht HF IHl]; [reflexivity|]. cbn [forallb]. now rewrite Ht, IHl.
+  - cbn [go_type shape_comparable comparable]. rewrite forallb_map'. cbn [snd].
+    induction IH as [|f fs Hf HF IHl]; [reflexivity|]. cbn [forallb]. now rewrite Hf, IHl.
+Qed.
+
+Lemma combine_map_pair {A B C} (f : A -> B) (g : A -> C) (l : list A) :
+  combine (map f l) (map g l) = map (fun x => (f x, g x)) l.
+Proof. induction l as [|x l IH]; cbn; [reflexivity|now rewrite IH]. Qed.
+
+(* on a type without an uncomparable key and without clashing member names Type() is the kind
+   tree go_type t, whether the repairs are in or not *)
+Lemma go_type_good cfg t : bad_key t = false -> dup_member t = false -> go_type_result cfg t = Some (go_type t).
+Proof.
+  induction t as [s|t IHt|k v IHk IHv|ts IH|n fs IH] using ty_ind2; intros Hb Hd; cbn [go_type_result go_type].
+  - reflexivity.
+  - cbn [bad_key dup_member] in *. now rewrite IHt.
+  - cbn [bad_key dup_member] in *. apply orb_false_elim in Hb as [Hb Hbv]. apply orb_false_elim in Hb as [Hc Hbk].
+    apply orb_false_elim in Hd as [Hdk Hdv]. apply negb_false_iff in Hc.
+    rewrite IHk, IHv by assumption. rewrite go_type_comparable, Hc. now destruct (c_key_panic cfg).
+  - cbn [bad_key dup_member] in *.
+    assert (E : res_list (go_type_result cfg) ts = Some (map go_type ts)).
+    { induction IH as [|t ts Ht HF IHl]; [reflexivity|]. cbn [existsb] in Hb, Hd.
+      apply orb_false_elim in Hb as [Hb1 Hb2]. apply orb_false_elim in Hd as [Hd1 Hd2].
+      cbn [res_list map]. now rewrite Ht, IHl. }
+    now rewrite E.
+  - cbn [bad_key dup_member] in *. apply orb_false_elim in Hd as [Hdup Hd].
+    assert (E : res_fields (go_type_result cfg) fs = Some (map (fun f => go_type (snd f)) fs)).
+    { clear Hdup. induction IH as [|f fs Hf HF IHl]; [reflexivity|]. cbn [existsb] in Hb, Hd.
+      apply orb_false_elim in Hb as [Hb1 Hb2]. apply orb_false_elim in Hd as [Hd1 Hd2].
+      cbn [res_fields map]. now rewrite Hf, IHl. }
+    rewrite E, Hdup. now rewrite combine_map_pair.
+Qed.
 
 (* ---------- the parser accepts nothing but printed signatures with white space between tokens ---------- *)
 Lemma unspace_app a b : unspace (a ++ b) = unspace a ++ unspace b.
